@@ -10,12 +10,12 @@ from harness import common, layers, rules
 from harness.common import Ctx, NCPU
 
 LA_SYMS = {
-    "LA": ("layer", "A"), "LB": ("layer", "B"),
+    "LA": ("layer", "A"), "LB": ("layer", "B"), "LC": ("layer", "C"),
     "Sa": ("str", "r.a"), "Sb": ("str", "r.b"),
     "La": ("list", ["r.a"]), "Lb": ("list", ["r.b"]), "Lab": ("list", ["r.a", "r.b"]),
     "RX": ("regex", r"r\.c.*"), "WL": ("with_layer",),
 }
-EXTRA = {"LC": ("layer", "C"), "Sx": ("str", "r.ab"), "Le": ("list", []), "Laa": ("list", ["r.a", "r.a"]), "Sc": ("str", "b"),
+EXTRA = {"LD": ("layer", "D"), "Sx": ("str", "r.ab"), "Le": ("list", []), "Laa": ("list", ["r.a", "r.a"]), "Sc": ("str", "b"),
          "PK": ("peek",)}      # observation of the architecture in the middle of its definition (never rejected, never changes anything)
 ALL = {**LA_SYMS, **EXTRA}
 
@@ -90,6 +90,11 @@ def run(ctx: Ctx):
     for _ in range(20000 if ctx.quick else 200000):
         k = ctx.rng.randint(6, 10)
         hists.append(tuple(ctx.rng.choice(allsyms) for _ in range(k)))
+    # a regex layer between two layers that are given the same module; four layers
+    for seqx in (["LA", "Sa", "LB", "RX", "LC", "Sa"], ["LA", "La", "LB", "RX", "LC", "Lab"], ["LA", "Sa", "LB", "RX", "LC", "Sb", "LD", "Sa"],
+                 ["LA", "RX", "LB", "Sa", "LC", "Sa"], ["LA", "Sa", "LB", "Sb", "LC", "RX", "LD", "Lab"]):
+        for cut in range(1, len(seqx) + 1):
+            hists.append(tuple(seqx[:cut]))
     for base in (["LA", "LB"], ["LA", "Sa", "LB", "Sb"], ["LA", "La", "LB", "Lb"], ["LA", "RX", "LB", "Sa"], ["LA", "Sa", "LB", "Sa"], ["LA", "LA"]):
         for i in range(len(base) + 1):
             hists.append(tuple(base[:i] + ["PK"] + base[i:]))
@@ -109,7 +114,7 @@ def run(ctx: Ctx):
         v["what"] = "[LayerRule builder] " + v["what"]
     ctx.exhaustive = True
     ctx.stat("la_histories", len(hists))
-    ctx.rule = (f"LayeredArchitecture: all call sequences of length <= {maxlen} over 9 symbols (two layer names, two module names as str / list / two-element list, a regex, with_layer), "
+    ctx.rule = (f"LayeredArchitecture: all call sequences of length <= {maxlen} over 10 symbols (three layer names, two module names as str / list / two-element list, a regex, with_layer), "
                 "exhaustive, plus random longer ones over 15 symbols (an observation of the half-defined architecture - a LayerRule based on it, layer_mapping and str read - inserted anywhere, third layer, name containing another name's characters, empty list, duplicate inside one list); "
                 "per history: index of the first rejected call, its error family, and str(architecture) parsed back, compared with the documented rules and with the model; "
                 "LayerRule: all chains up to length 4 over 11 symbols + random and mutated chains (architecture first, exactly one subject layer); "
